@@ -222,14 +222,9 @@ func BadTokens(s string) (bad int, balanced bool) {
 		switch t.T {
 		case BadString, BadURL:
 			bad++
-		case URL:
-			if !strings.HasSuffix(t.Raw, ")") {
+		case URL, String:
+			if t.EOF {
 				balanced = false // ended by the end of the input: a parse error as well
-				bad++
-			}
-		case String:
-			if len(t.Raw) < 2 || t.Raw[len(t.Raw)-1] != t.Raw[0] {
-				balanced = false
 				bad++
 			}
 		case LParen, Function:
